@@ -18,3 +18,4 @@ open GqlVerif.C15
 #print axioms display_spec
 #print axioms display_keeps_trailing_segments
 #print axioms querybody_members
+#print axioms envelope_shape_matches_source
